@@ -393,7 +393,7 @@ func (c *RawClient) Do(op *Op) {
 			c.sendWire(b, &Intent{Client: c.Spec.ID, OpID: op.ID, Kind: "retransmit", Cred: "ok"})
 		}
 	case "tcp_close":
-		if c.conn != nil {
+		if c.conn != nil && c.connUp {
 			if hasFlag(op, "rst") {
 				c.conn.reset()
 			} else {
